@@ -148,8 +148,12 @@ func VerifAPIReads() {
 	if err != nil {
 		panic(err)
 	}
-	if _, err := p.AddToBalance(tx, &A, fat2.PTickerUSD, vrt.URange("pendingCredit", 1, 1<<40)); err != nil {
-		panic(err)
+	// (the first write of the block after an API request was served: whatever the request left behind
+	// - a lock, a cursor, a connection returned to the pool in another mode - shows here)
+	_, werr := p.AddToBalance(tx, &A, fat2.PTickerUSD, vrt.URange("pendingCredit", 1, 1<<40))
+	vrt.Assert("C18.block-can-write-after-an-api-request-was-served", werr == nil)
+	if werr != nil {
+		return
 	}
 	if _, err := p.AddToBalance(tx, &B, fat2.PTickerUSD, 7); err != nil {
 		panic(err)
